@@ -210,4 +210,32 @@ theorem evictLoop_bounded (limit : Int) (hl : 1 ≤ limit) (s : St) (hi : Inv s)
     simp only [sumSizes] at this
     omega
 
+/-- eviction removes from the back only: what is left is a front segment of the list as it was -/
+theorem evictLoop_prefix (limit : Int) (fuel : Nat) : ∀ s : St, ∃ n, (evictLoop limit fuel s).evict = s.evict.take n := by
+  induction fuel with
+  | zero => intro s; exact ⟨s.evict.length, by simp [evictLoop]⟩
+  | succ f ih =>
+    intro s
+    simp only [evictLoop]
+    split
+    · exact ⟨s.evict.length, by simp⟩
+    · split
+      · exact ⟨s.evict.length, by simp⟩
+      · rename_i v hv
+        obtain ⟨n, hn⟩ := ih { s with evict := s.evict.dropLast, cache := s.cache.filter (fun e => e.key ≠ v.key), total := s.total - v.size }
+        refine ⟨min n (s.evict.length - 1), ?_⟩
+        rw [hn]
+        simp only [List.dropLast_eq_take, List.take_take]
+
+/-- … and it never stops early: if anything is left while the total is still at or above the limit, fuel ran out
+    (it does not with `fuel = length + 1`, `evictLoop_done`) -/
+theorem evictLoop_front_survives (limit : Int) (fuel : Nat) (s : St) (e : Elem) (rest : List Elem)
+    (hs : s.evict = e :: rest) (hne : (evictLoop limit fuel s).evict ≠ []) :
+    (evictLoop limit fuel s).evict.head? = some e := by
+  obtain ⟨n, hn⟩ := evictLoop_prefix limit fuel s
+  rw [hn, hs] at hne ⊢
+  cases n with
+  | zero => simp at hne
+  | succ n => simp
+
 end Pm.Cache
